@@ -161,6 +161,15 @@ def one(args):
     p = core.guarded(c2profile.C2Profile.from_beacon_config, bc[1], seconds=60)
     if p[0] != "ok":
         return {"kind": "exception", "stage": "from_beacon_config", "got": str(p)[:200]}
+    # a second and third generation from the same configuration object state the same (the last one is the one judged below)
+    first_text = core.guarded(p[1].as_text, seconds=60)
+    for _gen in range(2):
+        p = core.guarded(c2profile.C2Profile.from_beacon_config, bc[1], seconds=60)
+        if p[0] != "ok":
+            return {"kind": "exception", "stage": "from_beacon_config (repeated)", "got": str(p)[:200]}
+        tn = core.guarded(p[1].as_text, seconds=60)
+        if tn != first_text:
+            return {"kind": "unfaithful", "problems": [("wrong_value", "generation_%d_differs_from_the_first" % (_gen + 2), str(tn)[:150], str(first_text)[:150])], "text": str(tn[1])[:700] if tn[0] == "ok" else ""}
     t = core.guarded(p[1].as_text, seconds=60)
     if t[0] != "ok":
         return {"kind": "exception", "stage": "as_text", "got": str(t)[:200]}
@@ -201,7 +210,7 @@ def rand_cfg(rng):
         p = []
         for _ in range(rng.randrange(0, 3)):
             kind = rng.choice(["_HEADER", "_PARAMETER"])
-            val = rng.choice([b"v", b"v\\'w", b"'\\", b"a\"b"])
+            val = rng.choice([b"v", b"v\\'w", b"'\\", b"a\"b", b"stage: 2, hop: 4", b"a=b=c", b": "])
             p.append({"op": kind, "arg": L(b"K%d: " % len(p) + val) if kind == "_HEADER" else L(b"k%d=" % len(p) + val)})
         terms = rng.sample(["PRINT", "HEADER", "PARAMETER", "URI_APPEND"], zero_kind_count)
         for bi, term in enumerate(terms):
